@@ -313,9 +313,16 @@ def _get_function_insertion_lineno(
 
 def _get_constant_insertion_lineno(scope: ast.AST) -> int:
     import_types = (ast.Import, ast.ImportFrom)
-    imports = [node for node in scope.body if not isinstance(node, import_types)]
+    body = scope.body
+    # A docstring stays the first statement (and stays in front of "from __future__ import ...")
+    if body and core.match_template(body[0], ast.Expr(value=ast.Constant(value=str))):
+        body = body[1:]
+    imports = [node for node in body if not isinstance(node, import_types)]
     # The lineno of a decorated function or class is the line of its "def"/"class" keyword: the
     # statement starts at its first decorator, and nothing can be inserted between the two.
+    if not imports:
+        return scope.body[-1].end_lineno
+
     return min(
         min([node.lineno, *(dec.lineno for dec in getattr(node, "decorator_list", ()))])
         for node in imports
